@@ -95,11 +95,23 @@ OuterSyncLoop:
 
 			// One time operation, Inserts negative balance for the burn address that used during the attack
 			// We need to do this before main logic because sqlite db will be locked
+			var nullifyErr error
 			if d.Sync.Synced+1 == config.V20DevRewardsHeightActivation {
-				d.NullifyBurnAddress(ctx, tx, d.Sync.Synced+1)
+				nullifyErr = d.NullifyBurnAddress(ctx, tx, d.Sync.Synced+1)
 			}
 			if d.Sync.Synced+1 == config.V202EnhanceActivation {
-				d.NullifyBurnAddress(ctx, tx, d.Sync.Synced+1)
+				nullifyErr = d.NullifyBurnAddress(ctx, tx, d.Sync.Synced+1)
+			}
+			// What NullifyBurnAddress could not record is part of the (historical) result and is
+			// still only logged, but not being able to read its inputs is not: retry the block.
+			if _, retry := nullifyErr.(nullifyInputError); retry {
+				hLog.WithError(nullifyErr).Errorf("failed to sync height")
+				time.Sleep(retryPeriod)
+				err = tx.Rollback()
+				if err != nil {
+					hLog.WithError(err).Fatal("unable to roll back transaction")
+				}
+				continue OuterSyncLoop
 			}
 
 			// We are not synced, so we need to iterate through the dblocks and sync them
@@ -216,6 +228,7 @@ func (d *Pegnetd) NullifyMintedTokens(ctx context.Context, tx *sql.Tx, height ui
 		fLog.WithFields(log.Fields{
 			"err": err,
 		}).Info("zeroing burn | balances retrieval failed")
+		return err
 	}
 
 	for _, tokenSupply := range MintTotalSupplyMap {
@@ -233,6 +246,10 @@ func (d *Pegnetd) NullifyMintedTokens(ctx context.Context, tx *sql.Tx, height ui
 	}
 	return nil
 }
+
+// nullifyInputError is returned by NullifyBurnAddress when it could not read what it works
+// from (the directory block, the current balances). Nothing was decided yet at that point.
+type nullifyInputError struct{ error }
 
 func (d *Pegnetd) NullifyBurnAddress(ctx context.Context, tx *sql.Tx, height uint32) error {
 	fLog := log.WithFields(log.Fields{"height": height})
@@ -258,7 +275,7 @@ func (d *Pegnetd) NullifyBurnAddress(ctx context.Context, tx *sql.Tx, height uin
 	dblock := new(factom.DBlock)
 	dblock.Height = height
 	if err := dblock.Get(nil, d.FactomClient); err != nil {
-		return err
+		return nullifyInputError{err}
 	}
 	heightTimestamp := dblock.Timestamp
 
@@ -275,6 +292,7 @@ func (d *Pegnetd) NullifyBurnAddress(ctx context.Context, tx *sql.Tx, height uin
 		fLog.WithFields(log.Fields{
 			"err": err,
 		}).Info("zeroing burn | balances retrieval failed")
+		return nullifyInputError{err}
 	}
 
 	i := 0 // value to keep witin 0-9 range for mock tx
@@ -576,6 +594,7 @@ func (d *Pegnetd) SyncBlock(ctx context.Context, tx *sql.Tx, height uint32) erro
 		err := d.DevelopersPayouts(tx, fLog, height, dblock.Timestamp, developersList)
 		if err != nil {
 			fLog.WithFields(log.Fields{"section": "devReward", "reason": "developer reward"}).Tracef("something wrong happend during dev payout execution")
+			return err
 		}
 	}
 
@@ -882,13 +901,17 @@ func (d *Pegnetd) ApplyTransactionBatchesInHolding(ctx context.Context, sqlTx *s
 
 			if currentHeight >= config.V20HeightActivation {
 				if err := txBatch.ValidatePegTx(int32(currentHeight)); err != nil {
-					d.Pegnet.SetTransactionHistoryExecuted(sqlTx, txBatch, -2)
+					if err := d.Pegnet.SetTransactionHistoryExecuted(sqlTx, txBatch, -2); err != nil {
+						return err
+					}
 					continue
 				}
 			}
 
 			if err := txBatch.Validate(int32(currentHeight)); err != nil {
-				d.Pegnet.SetTransactionHistoryExecuted(sqlTx, txBatch, -2)
+				if err := d.Pegnet.SetTransactionHistoryExecuted(sqlTx, txBatch, -2); err != nil {
+					return err
+				}
 				continue
 			}
 			isReplay, err := d.Pegnet.IsReplayTransaction(sqlTx, txBatch.Entry.Hash)
@@ -909,7 +932,9 @@ func (d *Pegnetd) ApplyTransactionBatchesInHolding(ctx context.Context, sqlTx *s
 			if err != nil { // Likely a db error
 				return err
 			} else if rejectCode < 0 { // Tx rejected
-				d.Pegnet.SetTransactionHistoryExecuted(sqlTx, txBatch, rejectCode)
+				if err := d.Pegnet.SetTransactionHistoryExecuted(sqlTx, txBatch, rejectCode); err != nil {
+					return err
+				}
 			} else if err == nil { // Tx accepted
 				if currentHeight < config.V20HeightActivation {
 					// If PegnetConversion limits are on, we process conversions to
@@ -1010,7 +1035,9 @@ func (d *Pegnetd) ApplyTransactionBlock(sqlTx *sql.Tx, eblock *factom.EBlock) er
 			err != pegnet.InsufficientBalanceErr { // Allowed Exception
 			return err
 		} else if err == pegnet.InsufficientBalanceErr {
-			d.Pegnet.SetTransactionHistoryExecuted(sqlTx, txBatch, -1)
+			if err := d.Pegnet.SetTransactionHistoryExecuted(sqlTx, txBatch, -1); err != nil {
+				return err
+			}
 		}
 	}
 	return nil
